@@ -2,14 +2,15 @@
 import re, warnings
 from hypothesis import strategies as st
 
-from amaranth.hdl import Module, Signal, Elaboratable, Period, ClockDomain
+from amaranth.hdl import Module, Signal, Elaboratable, Period, ClockDomain, IOPort
 from amaranth.build import Resource, Subsignal, Pins, PinsN, DiffPairs, DiffPairsN, Attrs, Clock, Connector
-from amaranth.build.res import ResourceManager, ResourceError, PortGroup
+from amaranth.build.res import ResourceManager, ResourceError, PortGroup, PortMetadata
 from amaranth.lib import io
 from amaranth.vendor import SiliconBluePlatform, LatticePlatform, GowinPlatform
 
 from vlib.runner import Part, Mismatch, HarnessError
 from vlib.gen_expr import INT, BOOL, PICK
+from vlib import rtlil_read as RR
 
 PID = "C19"
 LEVEL = "exploration"
@@ -126,7 +127,7 @@ def descriptions(draw, nreq=12):
         if draw(INT(0, 5)) == 0 and q["dir"] != "-":
             q["xdr"] = draw(INT(0, 4))      # gearing ratios above 2 are refused (ValueError) once the pins are known
         reqs.append(q)
-    return {"connectors": conns, "resources": res, "requests": reqs}
+    return {"connectors": conns, "resources": res, "requests": reqs, "earlier_board": bool(conns) and draw(INT(0, 2)) == 0}
 
 
 # ------------------------------------------------------------------------------------------ model
@@ -262,7 +263,21 @@ def history_body(ctx, case):
     desc = case
     with warnings.catch_warnings():
         warnings.simplefilter("ignore")
-        rm = ResourceManager(build_resources(desc), build_connectors(desc))
+        resources = build_resources(desc)
+        if case.get("earlier_board"):
+            # the same Resource objects were used before with another board revision's connector table (same labels,
+            # other physical pins): nothing of that may show in what this manager hands out
+            alt = {"connectors": [dict(c, map={k: (POOL[(POOL.index(v) + 3) % len(POOL)] if v in POOL else v)
+                                               for k, v in c["map"].items()},
+                                       seq=[(POOL[(POOL.index(v) + 3) % len(POOL)] if v in POOL else v) for v in c.get("seq", [])])
+                                  for c in desc["connectors"]]}
+            rm0 = ResourceManager(resources, build_connectors(alt))
+            for r in desc["resources"]:
+                try:
+                    rm0.request(r["name"], r["number"], dir="-")
+                except Exception:
+                    pass
+        rm = ResourceManager(resources, build_connectors(desc))
     owner = {}            # physical pin -> (resource key)
     granted = set()
     stats = dict(refused_then_touch=False, granted=0, refused_pin=0, refused_twice=0, unknown=0, bad_dir=0, refused_late=0)
@@ -346,6 +361,8 @@ def history_body(ctx, case):
     if stats["unknown"]: keys.append("hist:unknown-resource")
     if stats["bad_dir"]: keys.append("hist:illegal-override")
     if stats["refused_late"]: keys.append("hist:refused-unsupported-data-rate")
+    if case.get("earlier_board") and any(chain_len(desc, lf) >= 1 for r in desc["resources"] for _, lf in leaves(r)):
+        keys.append("hist:resources-used-before-with-other-connectors")
     if stats["refused_then_touch"]: keys.append("hist:refused-then-granted-on-same-pins")
     lvs = [lf for r in desc["resources"] for _, lf in leaves(r)]
     if any(chain_len(desc, lf) >= 2 for lf in lvs): keys.append("hist:connector-chain>=2")
@@ -370,7 +387,10 @@ def plan_cases(draw):
     for i, r in enumerate(desc["resources"]):
         if draw(INT(0, 3)):
             picks.append([i, draw(INT(0, 2))])     # 0: buffer on every leaf, 1: on the first leaf only, 2: requested but unused
-    return {"desc": desc, "vendor": PICK(draw, sorted(VENDORS)), "use": picks}
+    # a port made by the design itself that carries the name of a requested port (one of the two is renamed in the
+    # netlist; the constraint file must follow the renaming): None, or [position among the requests, before/after]
+    clash = [draw(INT(0, 5)), draw(BOOL)] if draw(INT(0, 2)) == 0 else None
+    return {"desc": desc, "vendor": PICK(draw, sorted(VENDORS)), "use": picks, "clash": clash}
 
 
 def parse_constraints(vendor, text):
@@ -410,15 +430,25 @@ def plan_body(ctx, case):
             continue
         owner |= set(pins)
         todo.append((r, mode))
-    expected = {}     # port bit name -> pin   (buffered leaves)
-    clocks = {}       # port name -> Hz        (requested leaves with a clock)
-    optional = {}     # n-side bits of differential leaves and unbuffered leaves: if present must be right
+    ports_ = []       # requested leaf sides: {"name": derived port name, "pins": [...], "required": buffered and not the n side}
+    clocks = {}       # derived port name -> Hz   (requested leaves with a clock)
+    clash = case.get("clash")
+    clash_done = []
 
     class Design(Elaboratable):
         def elaborate(self, platform):
             m = Module()
             m.domains.sync = ClockDomain()
-            for r, mode in todo:
+            def add_clash(name, width):
+                # same name, another width: the two top-level ports can be told apart in the emitted netlist
+                upins = [f"U{k}" for k in range(width + 1)]
+                up = IOPort(width + 1, name=name, metadata=[PortMetadata(pn, {}) for pn in upins])
+                ub = io.Buffer("o", io.SingleEndedPort(up))
+                m.submodules += ub
+                m.d.comb += [ub.o.eq(1), ub.oe.eq(1)]
+                clash_done.append([name, width + 1])
+                ports_.append({"name": name, "pins": upins, "required": True})
+            for ri, (r, mode) in enumerate(todo):
                 val = platform.request(r["name"], r["number"], dir="-")
                 for li, (path, leaf) in enumerate(leaves(r)):
                     obj = val
@@ -429,10 +459,9 @@ def plan_body(ctx, case):
                     buffered = mode == 0 or (mode == 1 and li == 0)
                     sides = [("io", ps)] if "n" not in leaf["pins"] else [("p", ps), ("n", ns)]
                     for suffix, pins in sides:
-                        pname = f"{base}__{suffix}"
-                        for b, pin in enumerate(pins):
-                            bit = pname if len(pins) == 1 else f"{pname}[{b}]"
-                            (expected if (buffered and suffix != "n") else optional)[bit] = pin
+                        ports_.append({"name": f"{base}__{suffix}", "pins": list(pins), "required": buffered and suffix != "n"})
+                    if clash and not clash_done and clash[0] % len(todo) == ri and li == 0 and clash[1]:
+                        add_clash(f"{base}__{sides[0][0]}", len(ps))
                     if "clock_hz" in leaf:
                         clocks[f"{base}__{'io' if 'n' not in leaf['pins'] else 'p'}"] = Period(Hz=leaf["clock_hz"]).hertz
                     if buffered:
@@ -448,6 +477,8 @@ def plan_body(ctx, case):
                         if d != "o":
                             s = Signal(len(obj), name=f"cap_{base}")
                             m.d.sync += s.eq(buf.i)
+                    if clash and not clash_done and clash[0] % len(todo) == ri and li == 0 and not clash[1]:
+                        add_clash(f"{base}__{sides[0][0]}", len(ps))
             return m
     with warnings.catch_warnings():
         warnings.simplefilter("ignore")
@@ -460,30 +491,62 @@ def plan_body(ctx, case):
     if isinstance(text, bytes):
         text = text.decode()
     locs, freqs = parse_constraints(case["vendor"], text)
-    for bit, pin in expected.items():
-        if locs.get(bit) != [pin]:
-            raise Mismatch("pin-constraint", vendor=case["vendor"], port_bit=bit, expected=[pin], actual=locs.get(bit),
-                           file=text[:1500])
+    # the top-level ports of the emitted netlist: a name may have been made unique with a `$<n>` suffix
+    il = [v for k, v in plan.files.items() if k.endswith(".il")]
+    if len(il) != 1:
+        raise Mismatch("no-netlist-in-plan", files=sorted(plan.files))
+    try:
+        design = RR.parse(il[0] if isinstance(il[0], str) else il[0].decode())
+    except (RR.RTLILSyntaxError, RR.UnknownWire, RR.SliceOutOfBounds) as e:
+        raise Mismatch("plan-netlist-does-not-parse", error=str(e)[:300])
+    tops = [m_ for m_ in design.modules.values() if "\\top" in m_.attrs]
+    top_ports = {w.name[1:]: w.width for w in tops[0].wires.values() if w.port_kind} if len(tops) == 1 else {}
+    stem = lambda n: re.sub(r"\$\d+$", "", n)
+    per_wire = {}                      # constrained top-level port -> {bit: [pins]}
     for bit, pins in locs.items():
-        want = expected.get(bit, optional.get(bit))
-        if want is None:
-            raise Mismatch("constraint-for-unknown-port-bit", vendor=case["vendor"], port_bit=bit, pins=pins)
-        if pins != [want]:
-            raise Mismatch("pin-constraint", vendor=case["vendor"], port_bit=bit, expected=[want], actual=pins)
+        mt = re.fullmatch(r"(.*)\[(\d+)\]", bit)
+        wire, idx = (mt[1], int(mt[2])) if mt else (bit, 0)
+        if wire not in top_ports or idx >= top_ports[wire]:
+            raise Mismatch("constraint-for-unknown-port-bit", vendor=case["vendor"], port_bit=bit, pins=pins,
+                           top_level_ports=sorted(top_ports)[:12])
+        per_wire.setdefault(wire, {})[idx] = pins
+    used = [False] * len(ports_)
+    for wire, bits in sorted(per_wire.items()):
+        pins = [bits.get(k) for k in range(max(bits) + 1)]
+        if any(p is None or len(p) != 1 for p in pins):
+            raise Mismatch("pin-constraint", vendor=case["vendor"], port=wire, expected="one pin for each bit", actual=pins,
+                           file=text[:1500])
+        flat = [p[0] for p in pins]
+        cands = [k for k, pt in enumerate(ports_) if not used[k] and pt["name"] == stem(wire) and pt["pins"] == flat
+                 and len(flat) == top_ports[wire]]
+        if not cands:
+            raise Mismatch("pin-constraint", vendor=case["vendor"], port=wire, actual=flat,
+                           expected=[pt["pins"] for pt in ports_ if pt["name"] == stem(wire)], file=text[:1500])
+        used[cands[0]] = True
+    for k, pt in enumerate(ports_):
+        if pt["required"] and not used[k]:
+            raise Mismatch("pin-constraint", vendor=case["vendor"], port=pt["name"], expected=pt["pins"], actual=None,
+                           file=text[:1500])
     allpins = [p for ps in locs.values() for p in ps]
     if len(allpins) != len(set(allpins)):
         raise Mismatch("pin-assigned-twice", vendor=case["vendor"], pins=sorted(allpins))
     if case["vendor"] != "apicula":
-        for port, hz in clocks.items():
-            got = freqs.get(port)
-            if got is None or len(got) != 1 or abs(got[0] - hz) > 1e-9 * hz:
-                raise Mismatch("clock-constraint", vendor=case["vendor"], port=port, expected_hz=hz, actual=got,
-                               file=text[:1500])
-        for port in freqs:
-            if port not in clocks:
+        seen_clk = {}
+        for port, got in freqs.items():
+            hz = clocks.get(stem(port))
+            if hz is None:
                 raise Mismatch("clock-constraint-for-undeclared-clock", vendor=case["vendor"], port=port)
+            if len(got) != 1 or abs(got[0] - hz) > 1e-9 * hz:
+                raise Mismatch("clock-constraint", vendor=case["vendor"], port=port, expected_hz=hz, actual=got, file=text[:1500])
+            seen_clk[stem(port)] = seen_clk.get(stem(port), 0) + 1
+        for port, hz in clocks.items():
+            if seen_clk.get(port, 0) != 1:
+                raise Mismatch("clock-constraint", vendor=case["vendor"], port=port, expected_hz=hz, actual=None, file=text[:1500])
+    expected = [pt for pt in ports_ if pt["required"]]
     keys = ["plan:" + case["vendor"]]
     if expected: keys.append("plan:pins-checked")
+    if clash_done and any("$" in w for w in top_ports): keys.append("plan:port-renamed-in-netlist")
+    if clash_done and any("$" in w for w in per_wire): keys.append("plan:constrained-port-renamed-in-netlist")
     if clocks and case["vendor"] != "apicula": keys.append("plan:clock-checked")
     if any(hz % 1_000_000 for hz in [lf.get("clock_hz", 0) for r, _ in todo for _, lf in leaves(r)] if hz): keys.append("plan:fractional-mhz-clock")
     lvs = [lf for r, _ in todo for _, lf in leaves(r)]
@@ -502,8 +565,8 @@ def parts(tier):
     ]
 
 
-REQUIRED = ["hist:granted", "hist:refused-unsupported-data-rate", "hist:refused-pin-conflict", "hist:refused-repeat", "hist:unknown-resource",
+REQUIRED = ["hist:granted", "hist:resources-used-before-with-other-connectors", "hist:refused-unsupported-data-rate", "hist:refused-pin-conflict", "hist:refused-repeat", "hist:unknown-resource",
             "hist:illegal-override", "hist:refused-then-granted-on-same-pins", "hist:connector-chain>=2",
             "hist:differential", "hist:subsignals", "plan:icestorm", "plan:trellis", "plan:apicula",
             "plan:pins-checked", "plan:clock-checked", "plan:connector-relative", "plan:differential",
-            "plan:fractional-mhz-clock"]
+            "plan:fractional-mhz-clock", "plan:port-renamed-in-netlist", "plan:constrained-port-renamed-in-netlist"]
